@@ -41,7 +41,7 @@ func (r *Rand) Range(lo, hi int) int {
 }
 
 func (r *Rand) Float() float64 { return r.r.Float64() }
-func (r *Rand) Bool() bool        { return r.r.IntN(2) == 1 }
+func (r *Rand) Bool() bool     { return r.r.IntN(2) == 1 }
 func (r *Rand) Chance(p float64) bool {
 	return r.r.Float64() < p
 }
